@@ -27,6 +27,13 @@ REQUIRED = [
 ]
 
 PREP = {"error": None, "notes": []}
+_T0 = time.time()
+
+
+def trace(msg):
+  if os.environ.get("VERIF_TRACE"):
+    sys.stderr.write("[c12 %7.1fs] %s\n" % (time.time() - _T0, msg))
+    sys.stderr.flush()
 
 
 def prepare():
@@ -561,6 +568,20 @@ def eqhash_oracle(pool):
 # ----------------------------------------------------------------------------
 # K1
 # ----------------------------------------------------------------------------
+def first_diff(a, b):
+  """Index of the first differing character (binary search on prefixes)."""
+  lo, hi = 0, min(len(a), len(b))
+  if a[:hi] == b[:hi]:
+    return hi
+  while lo < hi:
+    mid = (lo + hi) // 2
+    if a[:mid + 1] == b[:mid + 1]:
+      lo = mid + 1
+    else:
+      hi = mid
+  return lo
+
+
 CASES = []   # all K1 cases of this run (S looks the objects up again)
 ASTS = []    # (label, TypeDeclUnit) handed to Serialize
 
@@ -623,11 +644,14 @@ def correspond(res, rng, tier):
   cases += gen.decl_cases(260 if tier == "quick" else 2500, 3)
   cases += gen.probe_cases()
   # ASTs: laws first (they need the unserialised tree), then the SerializableAst as a codec case
+  trace("cases generated")
   asts = build_asts(R, rng, tier, gen, res)
+  trace("asts built")
   ASTS[:] = asts
   law_fail = 0
   for label, ast, src in asts:
     msg = ast_oracle(R, ast)
+    trace("ast_oracle " + label)
     if msg:
       law_fail += 1
       disagreements.append({"kind": "ast-law", "case": label, "what": msg, "source": src})
@@ -673,7 +697,9 @@ def correspond(res, rng, tier):
     meta.append((idx, real, enc_err, dec_ok, dec_err))
     per_class[type(obj).__name__] = per_class.get(type(obj).__name__, 0) + 1
   t_real = time.time() - t0
+  trace("real side done")
   out = drv.batch(lines)
+  trace("driver done")
   t_drv = time.time() - t0 - t_real
   distinct = set()
   nbytes = 0
@@ -687,10 +713,11 @@ def correspond(res, rng, tier):
     mhex, wt, ok = parts
     real_ok = real is not None and dec_ok
     prob = None
-    if real is not None and real.hex() != mhex:
-      k = next((i for i in range(min(len(real.hex()), len(mhex))) if real.hex()[i] != mhex[i]), -1)
+    rhex = real.hex() if real is not None else None
+    if rhex is not None and rhex != mhex:
+      k = first_diff(rhex, mhex)
       prob = "bytes differ at hex offset %d: real …%s model …%s (len %d vs %d)" % (
-          k, real.hex()[max(0, k - 8):k + 24], mhex[max(0, k - 8):k + 24], len(real), len(mhex) // 2)
+          k, rhex[max(0, k - 8):k + 24], mhex[max(0, k - 8):k + 24], len(real), len(mhex) // 2)
     elif (wt == "1") != real_ok:
       prob = "model WT=%s but real encode/decode %s (%s)" % (wt, "succeeds" if real_ok else "fails", enc_err or dec_err)
     elif (ok == "1") != real_ok:
@@ -706,6 +733,7 @@ def correspond(res, rng, tier):
         distinct.add(real)
   # ---- K2
   k2 = correspond_eqhash(res, rng, tier, R, drv, gen, disagreements)
+  trace("K2 done")
   res.cov["evaluations"] = len(meta) + k2["pairs"]
   res.cov["distinct_nontrivial"] = len(distinct) + k2["distinct_classes"]
   res.cov["exhaustive"] = False
@@ -803,7 +831,9 @@ def correspond_eqhash(res, rng, tier, R, drv, gen, disagreements):
   pool = pool[:cap]
   n = len(pool)
   lines = ["reset"] + ["pool " + " ".join(to_tokens(t, [], R.msgspec)) for t in pool] + ["eqmat", "hcls", "eqok"]
+  trace("K2 pool built: %d" % n)
   out = drv.batch(lines)
+  trace("K2 driver done")
   if len(out) != 3:
     disagreements.append({"kind": "driver", "what": "pool protocol", "out": [o[:100] for o in out][:5]})
     return {"pool": n, "pairs": 0, "distinct_classes": 0}
@@ -811,6 +841,7 @@ def correspond_eqhash(res, rng, tier, R, drv, gen, disagreements):
   cls = [int(x) for x in out[1].split(" ")]
   eqok = out[2]
   hs = [hash(t) for t in pool]
+  trace("K2 hashes done")
   n_eq = n_bad = accidental = 0
   acc_samples = []
   for i in range(n):
@@ -979,8 +1010,10 @@ def search(res, rng, disagreements, pfail):
                   "unshrunk": repr(obj)[:300]})
 
   def add_ast(label, ast, msg, src):
+    trace("shrinking ast " + label)
     try:
       small = shrink_ast(R, ast, lambda a: ast_oracle(R, a) is not None)
+      trace("shrunk")
       text = R.pytd_utils.Print(small)
     except Exception as e:  # pylint: disable=broad-except
       small, text = ast, "<unprintable: %r>" % e
@@ -988,6 +1021,7 @@ def search(res, rng, disagreements, pfail):
                   "ast": label, "what": ast_oracle(R, small) or msg, "shrunk_ast_pyi": text[:3000],
                   "shrunk_ast_repr": repr(small)[:3000], "program": src})
 
+  trace("search start")
   # 1. eq/hash law on the pool of this run, then on a fresh larger pool
   pools = [list(EQPOOL), build_pool(rng, R, gen, 200)]
   for pool in pools:
@@ -1005,6 +1039,7 @@ def search(res, rng, disagreements, pfail):
                     "a": repr(a3), "b": repr(b2), "a==b": bool(a3 == b2), "hash(a)": hash(a3), "hash(b)": hash(b2),
                     "len({a,b})": len({a3, b2}), "violating_pairs_in_pool": len(bad)})
       break
+  trace("search: eq/hash pools done")
   # 2. the inputs of the disagreements
   seen_cases = set()
   for d in disagreements:
@@ -1034,6 +1069,7 @@ def search(res, rng, disagreements, pfail):
         msg = ast_oracle(R, ast[1])
         if msg:
           add_ast(ast[0], ast[1], msg, ast[2])
+  trace("search: disagreement inputs done, found=%d" % len(found))
   # 3. neighbourhood: fresh legit nodes of every class, fresh generated units, every AST of the run
   if len(found) < 2:
     for c in gen.size_cases()[:40] + gen.decl_cases(400, 3):
